@@ -68,7 +68,9 @@ fn case(r: &mut Rng, res: &mut CaseResult) {
     let mut dtag = 1000u64;
     let mut log: Vec<String> = Vec::new();
     let rounds = r.usize(1, 4);
-    let mut victim_id: Option<u16> = None;
+    // in half of the sessions the victim has an id chosen by the caller, ahead of the
+    // library's allocation counter
+    let mut victim_id: Option<u16> = if r.bool() { Some(r.range(100, 2000) as u16) } else { None };
     for round in 0..rounds {
         // (re)open the victim channel; the same id must be available again
         let vch = match conn.open_channel(victim_id) {
